@@ -428,6 +428,8 @@ def run_surface_corpus(tag):
         nonbc = [c for c in codes if c not in BORROWCK]
         # "… is not Clone": the rejection IS the missing method / unsatisfied bound
         if p.what.endswith("is not Clone") and set(nonbc) <= {"E0599", "E0277"}: nonbc = []
+        # "… needs unsafe": the rejection IS the unsafety check
+        if p.what.endswith("needs unsafe") and set(codes) == {"E0133"}: nonbc = []
         if nonbc and want == "reject":
             # rejected, but not by the borrow checker: the probe itself is ill-typed (template out of date?)
             tie.append((f"probe `{p.what}` does not type-check ({','.join(sorted(set(nonbc)))}); no verdict", {"program": p.program()[-600:]}))
